@@ -166,17 +166,20 @@ fn default_job(kind: Kind, depth: usize) -> JobOut {
         alpha.push(Op::B(Bar { o: -3.0, h: -1.0, l: -6.0, c: -2.0, v: 2.0 }));
     }
     let mut ops: Vec<Op> = vec![];
+    let mut pattern_no = 0usize;
     for_each_seq_exact(alpha.len(), depth, |seq| {
         ops.clear();
         ops.extend(seq.iter().map(|&a| alpha[a as usize]));
+        pattern_no += 1;
+        // every other pattern the default instance goes through reset / clone / Debug / Display first
+        let lifecycle_first = pattern_no % 2 == 0;
         // long enough to pass the default window: repeat the pattern
         let n = cfg.max_period() + 3;
         let long: Vec<Op> = (0..n.max(depth)).map(|i| ops[i % depth]).collect();
         let r = std::panic::catch_unwind(std::panic::AssertUnwindSafe(|| {
             let mut a = make_default(kind);
             let mut b = make(&cfg);
-            // every other pattern: the default instance is reset / cloned / formatted before its first input
-            if ops.len() % 2 == 0 || matches!(ops[0], Op::S(x) if x < 3.0) {
+            if lifecycle_first {
                 a.reset();
                 a = a.dup();
                 let _ = a.dbg();
